@@ -503,6 +503,68 @@ def rule_window_start(ctx, F):
                     "the reuse, and the re-parse skips it" % (fn.loc(pt), show(a)[:60]), {"site": fn.loc(pt)})
 
 
+def rule_column_consulted(ctx, F):
+    """P13: a token depends on the column whenever the scanner looked at it — also when the scanner then declined.
+    The external scanner may call get_column() and return false because of what it saw; the token the internal lexer
+    produces instead exists only because of that answer.  ts_lexer_start clears the lexer's did_get_column flag, so after
+    every external scan the flag is read (and remembered) before the lexer is started again."""
+    fn = ctx.need_fn(F, "ts_parser__lex", "P13")
+    if not fn:
+        return
+    scan = [pt for pt, c in fn.calls() if callee_name(c) == "ts_parser__external_scanner_scan"]
+    start = [pt for pt, c in fn.calls() if callee_name(c) == "ts_lexer_start"]
+    reads = sorted({pt for pt, e in fn.points() for x in own_walk(e) if x.get("k") == "mem" and x.get("f") == "did_get_column"})
+    key = "ts_parser__lex:column-use-survives-a-declined-scan"
+    if not scan or not start:
+        ctx.bad("P13", key, "ts_parser__lex no longer calls the external scanner / ts_lexer_start")
+        return
+    if not reads:
+        ctx.bad("P13", key, "ts_parser__lex never reads lexer.did_get_column")
+        return
+    class Lost(Monitor):
+        def elem(self, m, pt, e, s):
+            if pt in reads:
+                return None
+            if m is not None and pt in start:
+                return Viol("the lexer is started again (clearing did_get_column) although the flag was not read since the external scan at %s" % fn.loc(m), pt)
+            if pt in scan:
+                return pt
+            return m
+    sr = Search(fn, Lost())
+    v = sr.run(None)
+    if v is None:
+        ctx.ok("P13", key, "after every external scan lexer.did_get_column is read before ts_lexer_start clears it (%d states)" % sr.states, sample={"scan": fn.loc(scan[0])})
+    else:
+        ctx.bad("P13", key, "ts_parser__lex: %s — a column-sensitive scanner that calls get_column() and then declines leaves no trace: the token lexed instead is not marked as depending on the column "
+                "and is reused after an edit that shifts it" % v.msg, {"path": sr.render_path(v.path)[-6:]})
+
+
+def rule_inline_flags(ctx, F):
+    """P14: the inline leaf representation has no bit for "depends on the column" (nor for external tokens), and its
+    accessor answers false; so a leaf for which either holds is never built inline — otherwise the mark set in
+    ts_parser__lex is lost at construction and the reuse test never sees it."""
+    from flow import cond_cases
+    fn = ctx.need_fn(F, "ts_subtree_new_leaf", "P14")
+    if not fn:
+        return
+    ids = fn.ids_named("is_inline")
+    ds = [d for i in ids for d in fn.defs(i) if isinstance(d, dict) and d.get("k") not in ("uninit", "param")]
+    key = "ts_subtree_new_leaf:inline-only-without-flags"
+    if not ds:
+        ctx.bad("P14", key, "ts_subtree_new_leaf no longer computes `is_inline`")
+        return
+    m = M(fn)
+    cases = cond_cases(ds[0], True)
+    for pname in ("depends_on_column", "has_external_tokens"):
+        ok = bool(cases) and all(any(m.match(pname, ex) and tr is False for ex, tr in case) for case in cases)
+        k2 = key + ":" + pname
+        if ok:
+            ctx.ok("P14", k2, "a leaf is built inline only if `%s` is false" % pname)
+        else:
+            ctx.bad("P14", k2, "ts_subtree_new_leaf can build a leaf inline although `%s` is set (`is_inline = %s`): the inline form cannot record it, ts_subtree_%s() answers false, and a token whose "
+                    "recognition depended on it is reused after an edit that changes it" % (pname, show(ds[0])[:80], pname))
+
+
 def rule_examined_char(ctx, F):
     """P11: the bytes a token's recognition depended on include the *whole* character the lexer was looking at when it
     stopped.  ts_lexer_finish reports current_position + the size of that look-ahead character (a constant smaller than
@@ -615,6 +677,8 @@ def run(ctx):
         rule_fragile_state(ctx, F)
         rule_examined_char(ctx, F)
         rule_window_start(ctx, F)
+        rule_column_consulted(ctx, F)
+        rule_inline_flags(ctx, F)
         # the edit marks (has_changes) every node the reuse test must refuse — incl. column-dependent ones whose column shifted (shared with C10.P2/P3)
         import C10
         C10.rule_subtree_edit(ctx, F)
